@@ -168,69 +168,36 @@ func (e *env) viewTok(mailbox, id, subject, from string, to []string, millis, si
 	return fmt.Sprintf("%s.%d.%s.%d.%s", e.kOf(mailbox, id), millis, tagOf(subject, from, to), size, seenTok(seen))
 }
 
+type jatt struct {
+	ID           string `json:"id"`
+	FileName     string `json:"filename"`
+	ContentType  string `json:"content-type"`
+	DownloadLink string `json:"download-link"`
+	ViewLink     string `json:"view-link"`
+	MD5          string `json:"md5"`
+}
+
 type jhdr struct {
-	Mailbox     string   `json:"mailbox"`
-	ID          string   `json:"id"`
-	From        string   `json:"from"`
-	To          []string `json:"to"`
-	Subject     string   `json:"subject"`
-	PosixMillis int64    `json:"posix-millis"`
-	Size        int64    `json:"size"`
-	Seen        bool     `json:"seen"`
+	Mailbox     string    `json:"mailbox"`
+	ID          string    `json:"id"`
+	From        string    `json:"from"`
+	To          []string  `json:"to"`
+	Subject     string    `json:"subject"`
+	Date        time.Time `json:"date"`
+	PosixMillis int64     `json:"posix-millis"`
+	Size        int64     `json:"size"`
+	Seen        bool      `json:"seen"`
 	// v1 message
 	Body *struct {
 		Text string `json:"text"`
 		HTML string `json:"html"`
 	} `json:"body"`
 	// web-UI message
-	Text        *string           `json:"text"`
-	HTML        *string           `json:"html"`
-	Attachments []json.RawMessage `json:"attachments"`
-}
-
-// checkContent verifies text / html / attachments of a full message against its tag.
-func checkContent(tagS string, text, html string, natt int, ui bool) string {
-	tag, err := strconv.Atoi(tagS)
-	if err != nil {
-		return tagS
-	}
-	wantText := tagText(tag)
-	if ui {
-		wantText = web.TextToHTML(wantText)
-	}
-	if strings.TrimRight(text, "\r\n") != strings.TrimRight(wantText, "\r\n") && !(ui && strings.HasPrefix(text, wantText)) {
-		return "BADTEXT"
-	}
-	if (tag%4 == 2) != (html != "") {
-		return "BADHTML"
-	}
-	if tag%4 == 2 && !ui && html != tagHTML(tag) {
-		return "BADHTML"
-	}
-	want := 0
-	if tag%4 == 3 {
-		want = 1
-	}
-	if natt != want {
-		return "BADATT"
-	}
-	return tagS
-}
-
-func (e *env) hdrTok(h *jhdr, full bool) string {
-	t := tagOf(h.Subject, h.From, h.To)
-	if full {
-		if h.Body != nil {
-			t = checkContent(t, h.Body.Text, h.Body.HTML, len(h.Attachments), false)
-		} else if h.Text != nil {
-			html := ""
-			if h.HTML != nil {
-				html = *h.HTML
-			}
-			t = checkContent(t, *h.Text, html, len(h.Attachments), true)
-		}
-	}
-	return fmt.Sprintf("%s.%d.%s.%d.%s", e.kOf(h.Mailbox, h.ID), h.PosixMillis, t, h.Size, seenTok(h.Seen))
+	Text        *string             `json:"text"`
+	HTML        *string             `json:"html"`
+	Header      map[string][]string `json:"header"`
+	Attachments []jatt              `json:"attachments"`
+	Errors      []json.RawMessage   `json:"errors"`
 }
 
 func (e *env) listTok(hs []*jhdr) string {
@@ -243,7 +210,7 @@ func (e *env) listTok(hs []*jhdr) string {
 		if h.Mailbox != mb {
 			return "L@MIXED:"
 		}
-		parts[i] = e.hdrTok(h, false)
+		parts[i] = e.jsonHdrTok(h)
 	}
 	return "L@" + vh.HS(mb) + ":" + strings.Join(parts, ";")
 }
@@ -268,6 +235,10 @@ var tagInAtt = regexp.MustCompile(`^ATTACH-(\d+)$`)
 // respTok projects one HTTP response.
 func (e *env) respTok(resp *http.Response, reqNum string) string {
 	body, _ := io.ReadAll(resp.Body)
+	host := ""
+	if resp.Request != nil {
+		host = resp.Request.URL.Host
+	}
 	st := strconv.Itoa(resp.StatusCode)
 	switch {
 	case resp.StatusCode == 301:
@@ -298,9 +269,9 @@ func (e *env) respTok(resp *http.Response, reqNum string) string {
 				return st + "/BADJSON"
 			}
 			if h.Body != nil {
-				return st + "/M@" + vh.HS(h.Mailbox) + ":" + e.hdrTok(&h, true)
+				return st + "/M@" + vh.HS(h.Mailbox) + ":" + e.jsonMsgTok(&h, host)
 			}
-			return st + "/U@" + vh.HS(h.Mailbox) + ":" + e.hdrTok(&h, true)
+			return st + "/U@" + vh.HS(h.Mailbox) + ":" + e.jsonUITok(&h)
 		}
 	case strings.HasPrefix(ct, "text/plain"):
 		return st + "/" + srcTok(body)
@@ -469,20 +440,6 @@ func (e *env) http10(req *http.Request, method, p, payload string, hasBody bool)
 	conn.Close()
 	resp.Body = io.NopCloser(bytes.NewReader(data))
 	return resp, nil
-}
-
-func (e *env) cliHdrTok(h *client.MessageHeader) string {
-	return e.viewTok(h.Mailbox, h.ID, h.Subject, h.From, h.To, h.PosixMillis, h.Size, h.Seen)
-}
-
-func (e *env) cliMsgTok(m *client.Message) string {
-	t := tagOf(m.Subject, m.From, m.To)
-	if m.Body != nil {
-		t = checkContent(t, m.Body.Text, m.Body.HTML, len(m.Attachments), false)
-	} else {
-		t = "NOBODY"
-	}
-	return fmt.Sprintf("M@%s:%s.%d.%s.%d.%s", vh.HS(m.Mailbox), e.kOf(m.Mailbox, m.ID), m.PosixMillis, t, m.Size, seenTok(m.Seen))
 }
 
 func (e *env) doClient(parts []string) string {
